@@ -239,8 +239,9 @@ def gen_case(rng, malformed):
     if rng.random() < 0.3:
         rcmd, rtoks = gen_cmd(rng, run.get("nodes"), run.get("procs"), malformed, 0.1)
         run["restart"] = rcmd
-    name = rng.choice(["step", "run sim", "post-proc_X.1", "a b c", "s_TRIAL.3.SIZE.10"])
-    desc = rng.choice(["d", "two\nlines", "say \"hi\"", "A longer description."])
+    name = rng.choice(["step", "run sim", "post-proc_X.1", "a b c", "s_TRIAL.3.SIZE.10", "run{1}", "set_{a,b}"])
+    desc = rng.choice(["d", "two\nlines", "say \"hi\"", "A longer description.", "writes to ${SCRATCH}/runs",
+                       "{\"status\": \"ok\"}", "the pairs {{a, b}}", "100% of {0}", "}{"])
     return {"adapter": adapter, "kw": kw, "fargs": {k: str(v) for k, v in fargs.items()},
             "envuri": envuri, "name": name, "desc": desc, "run": run,
             "malformed": malformed, "tokens": toks, "rtokens": rtokens_or(rtoks), "nested": nested}
@@ -734,6 +735,8 @@ def monitor(case, out, parsed):
 
 
 def make_case(case, root, shared=None):
+    import common
+    common.next_logging()
     out, parsed = run_real(case, root, shared)
     mon = monitor(case, out, parsed)
     data = {k: case[k] for k in ("adapter", "kw", "fargs", "envuri", "name", "desc", "run", "malformed")}
